@@ -132,7 +132,8 @@ Base(sys, n, first, add, rng, pad, neg, fb) ==
 ExtR(target, pad, neg, fb, rs) ==
   [sys |-> "extends", n |-> 0, first |-> 1, add |-> 0, rng |-> Rng(TRUE, 0, 0), rngset |-> rs = "auto", pad |-> pad, neg |-> neg, fb |-> fb, ext |-> target, mb |-> FALSE]
 Ext(target, pad, neg, fb) == ExtR(target, pad, neg, fb, "unset")
-Ranges == {Rng(TRUE, 0, 0), Rng(FALSE, 2, 4), Rng(FALSE, -2, 2)}
+\* (a bound of -1000 / 1000 is spelled `infinite`: no lower / upper bound)
+Ranges == {Rng(TRUE, 0, 0), Rng(FALSE, 2, 4), Rng(FALSE, -2, 2), Rng(FALSE, -1000, 2), Rng(FALSE, 3, 1000)}
 YCyc == Base("cyclic", 2, 1, 0, Rng(TRUE, 0, 0), 0, "", "")
 YNum == Base("numeric", 2, 1, 0, Rng(FALSE, 0, 5), 2, "paren", "x")
 
